@@ -326,6 +326,12 @@ class AsyncServer(Entity):
                         # Complete the request
                         self._complete_request(original_event)
 
+                        # The queue-processing event was built before the I/O wait;
+                        # stamp it with the current clock, otherwise it lies in the
+                        # past by now, the engine skips it and the CPU queue stalls.
+                        for queued in result_events:
+                            queued.time = self.now
+
                         # Return any events from I/O handler plus queue processing
                         if result is None:
                             return result_events if result_events else None
